@@ -176,6 +176,29 @@ func structMutants(b []byte, depth int, path string) []mutant {
 				add(id+":doubled", splice(b, f.start, f.end, lenDelim(f.num, append(append([]byte{}, content...), content...))))
 				add(id+":plus1", splice(b, f.start, f.end, lenDelim(f.num, append(append([]byte{}, content...), 0))))
 			}
+			// value patterns of the same length: all zero, all ones, a zeroed 32-byte window (scalars and
+			// coordinates of proofs and signatures are 32-byte words), and the short lengths 3 and 7
+			if len(content) > 0 {
+				fill := func(from, to int, v byte) []byte {
+					c := append([]byte{}, content...)
+					for i := from; i < to && i < len(c); i++ {
+						c[i] = v
+					}
+					return c
+				}
+				add(id+":zeros", splice(b, f.start, f.end, lenDelim(f.num, fill(0, len(content), 0))))
+				add(id+":ones", splice(b, f.start, f.end, lenDelim(f.num, fill(0, len(content), 0xff))))
+				if len(content) >= 64 {
+					for w := 0; w+32 <= len(content) && w < 128; w += 32 {
+						add(fmt.Sprintf("%s:zero[%d:%d]", id, w, w+32), splice(b, f.start, f.end, lenDelim(f.num, fill(w, w+32, 0))))
+					}
+				}
+			}
+			for _, n := range []int{3, 7} {
+				if len(content) != n {
+					add(fmt.Sprintf("%s:len%d", id, n), splice(b, f.start, f.end, lenDelim(f.num, make([]byte, n))))
+				}
+			}
 			// length prefix claims more than is there (mismatched length)
 			for _, claim := range []uint64{uint64(len(content)) + 1, 1 << 20, 1 << 31, 1<<32 - 1, 1<<63 - 1} {
 				add(fmt.Sprintf("%s:claims=%d", id, claim), splice(b, f.start, f.end, append(append(tagBytes(f.num, 2), uv(claim)...), content...)))
@@ -209,7 +232,8 @@ func structMutants(b []byte, depth int, path string) []mutant {
 		if present[k] {
 			continue
 		}
-		for _, v := range []uint64{1, 128, 256, 384, 1 << 20, 1<<32 - 1, 1<<64 - 1} {
+		// every single bit of a 12-bit flag word, one two-bit combination, and three large values
+		for _, v := range []uint64{1, 2, 4, 8, 16, 32, 64, 128, 256, 512, 1024, 2048, 384, 1 << 20, 1<<32 - 1, 1<<64 - 1} {
 			add(fmt.Sprintf("insert:f%d:varint=%d", k, v), append(append([]byte{}, b...), append(tagBytes(k, 0), uv(v)...)...))
 		}
 		add(fmt.Sprintf("insert:f%d:bytes20", k), append(append([]byte{}, b...), lenDelim(k, make([]byte, 20))...))
